@@ -69,3 +69,35 @@ def ref_merkle(f, P):
             _merkle_cache.clear()
         _merkle_cache[key] = r
     return r
+
+
+# ---------------------------------------------------------------- "second act": the same creator used again in the same process
+def second_act():
+    """Optional follow-up for creator properties: one file is rewritten in place (same length, new bytes, optionally
+    with its old timestamps restored) and the metafile is created again by the same process.  Anything a creator
+    remembers about a file between two uses (by path, inode, size, mtime) then shows in the second metafile."""
+    from hypothesis import strategies as st
+    return st.one_of(st.none(), st.none(), st.none(),
+                     st.fixed_dictionaries({"file": st.integers(0, 40), "seed": st.integers(2**32, 2**33),
+                                            "keep_mtime": st.sampled_from([True, True, False])}))
+
+
+def apply_second_act(tree, root, act):
+    """Rewrite the chosen file on disk; returns the updated tree spec, or None when no file qualifies."""
+    linked = {f["hardlink"] for f in tree["files"] if f.get("hardlink") is not None}
+    cands = [i for i, f in enumerate(tree["files"]) if f["size"] > 0 and f.get("hardlink") is None and i not in linked]
+    if not cands:
+        return None
+    i = cands[act["file"] % len(cands)]
+    new = {"name": tree["name"], "single": tree["single"], "files": [dict(f) for f in tree["files"]]}
+    f = new["files"][i]
+    f["seed"] = act["seed"]
+    if f["mode"] in ("zero",):
+        f["mode"] = "rnd"
+    path = root if tree["single"] else os.path.join(root, *f["path"])
+    st0 = os.stat(path)
+    with open(path, "r+b") as fd:
+        fd.write(sandbox.file_bytes(f))
+    if act["keep_mtime"]:
+        os.utime(path, ns=(st0.st_atime_ns, st0.st_mtime_ns))
+    return new
